@@ -13,6 +13,7 @@ import (
 	"io"
 	"os"
 	"os/exec"
+	"strconv"
 	"strings"
 	"syscall"
 	"time"
@@ -41,6 +42,9 @@ type c20In struct {
 	Snapshot bool   `json:"snapshot,omitempty"`
 	NoOut    bool   `json:"noout,omitempty"`
 	ViaArgs  bool   `json:"via_args,omitempty"`
+	// environment of the child: nil = variable unset
+	EnvColumns *string `json:"env_COLUMNS"`
+	EnvLines   *string `json:"env_LINES"`
 	Kind int     `json:"kind"` // 0 TermWriter, 1 BufferedTerm (helpers.BuildVTerm(true)), 2 VirtualTerm, 3 TermWriter, histories aimed at the right margin (judged as 0)
 	Size int     `json:"size"` // VirtualTerm: NewVirtualTermEx(size, 10)
 	Trim bool    `json:"auto_trim"`
@@ -201,7 +205,18 @@ func c20RunSelect(in c20In) (out c20Out) {
 	ctx, cancel := context.WithTimeout(context.Background(), 30*time.Second)
 	defer cancel()
 	cmd := exec.CommandContext(ctx, self, "c20-select-child")
-	cmd.Env = append(os.Environ(), "C20_SELECT_SPEC="+string(spec))
+	for _, kv := range os.Environ() {
+		if !strings.HasPrefix(kv, "COLUMNS=") && !strings.HasPrefix(kv, "LINES=") {
+			cmd.Env = append(cmd.Env, kv)
+		}
+	}
+	cmd.Env = append(cmd.Env, "C20_SELECT_SPEC="+string(spec))
+	if in.EnvColumns != nil {
+		cmd.Env = append(cmd.Env, "COLUMNS="+*in.EnvColumns)
+	}
+	if in.EnvLines != nil {
+		cmd.Env = append(cmd.Env, "LINES="+*in.EnvLines)
+	}
 	var stderr bytes.Buffer
 	cmd.Stderr = &stderr
 	var arrived []byte
@@ -290,6 +305,13 @@ func c20RunSelect(in c20In) (out c20Out) {
 
 var c20OutKinds = map[string]int{"tty": 0, "null": 1, "pipe": 2, "file": 4}
 
+func optS(p *string) string {
+	if p == nil {
+		return "None"
+	}
+	return "(Some " + HS(*p) + ")"
+}
+
 func c20SelectCase(in c20In) Case {
 	in.Kind = 4
 	out := c20RunSelect(in)
@@ -304,10 +326,11 @@ func c20SelectCase(in c20In) Case {
 		if !ok {
 			wn = 9
 		}
-		coq = fmt.Sprintf("cS %d %s %s %s (%d)%%Z %s \"%s\" %d %s %s", c20OutKinds[in.Out], B(in.Snapshot), B(in.NoOut),
-			B(out.AutoTrim), out.ColsSeen, CoqList(ups), out.Segs[0], wn, B(out.Piped), B(out.Color))
+		coq = fmt.Sprintf("cS %d %s %s (%d)%%Z %s %s %s \"%s\" %d %s %s %s (%d)%%Z", c20OutKinds[in.Out], B(in.Snapshot), B(in.NoOut),
+			in.Cols, optS(in.EnvColumns), optS(in.EnvLines), CoqList(ups), out.Segs[0], wn, B(out.Piped), B(out.Color), B(out.AutoTrim), out.ColsSeen)
 	} else {
-		coq = fmt.Sprintf("cSP %d %s %s false (80)%%Z %s", c20OutKinds[in.Out], B(in.Snapshot), B(in.NoOut), CoqList(ups))
+		coq = fmt.Sprintf("cSP %d %s %s (%d)%%Z %s %s %s", c20OutKinds[in.Out], B(in.Snapshot), B(in.NoOut), in.Cols,
+			optS(in.EnvColumns), optS(in.EnvLines), CoqList(ups))
 	}
 	tags := []string{"kind=writer-selection", "stdout=" + in.Out}
 	if in.Snapshot {
@@ -315,6 +338,27 @@ func c20SelectCase(in c20In) Case {
 	}
 	if in.NoOut {
 		tags = append(tags, "--noout")
+	}
+	switch {
+	case in.EnvColumns == nil:
+		tags = append(tags, "COLUMNS unset")
+	case *in.EnvColumns == "":
+		tags = append(tags, "COLUMNS empty")
+	default:
+		tags = append(tags, "COLUMNS="+*in.EnvColumns)
+		maxVis := 0
+		for _, u := range in.Ups {
+			b, _ := hex.DecodeString(u.Text)
+			if v, _, _, _ := c20Scan(string(b)); v > maxVis {
+				maxVis = v
+			}
+		}
+		if c, err := strconv.Atoi(*in.EnvColumns); err == nil && c > 0 && maxVis > c {
+			tags = append(tags, "text wider than COLUMNS")
+		}
+	}
+	if in.EnvLines != nil {
+		tags = append(tags, "LINES set")
 	}
 	if in.ViaArgs {
 		tags = append(tags, "via=BuildVTermFromArguments")
@@ -343,8 +387,33 @@ func c20SelectCases(r *Rng, n int) []Case {
 		cases = append(cases, c20SelectCase(c20In{Out: o, Cols: 40, NoOut: true, ViaArgs: true, Ups: demo}))
 		cases = append(cases, c20SelectCase(c20In{Out: o, Cols: 40, ViaArgs: false, Ups: nil}))
 	}
+	// the environment as a dimension: COLUMNS / LINES must not change what a non-terminal receives
+	// (final lines untrimmed), nor the width a terminal is trimmed at (the tty driver's window size)
+	sp := func(v string) *string { return &v }
+	wide := []c20Up{{0, h(strings.Repeat("0123456789", 12))}, {2, h("short")}, {1, h("\x1b[31m" + strings.Repeat("abcdefghij", 9) + "\x1b[0m")},
+		{0, h(strings.Repeat("wider than any COLUMNS value ", 4))}}
+	envVals := []*string{nil, sp(""), sp("20"), sp("80"), sp("0"), sp("-5"), sp("abc")}
+	for _, o := range outs {
+		if o == "null" {
+			continue
+		}
+		for _, ev := range envVals {
+			cases = append(cases, c20SelectCase(c20In{Out: o, Cols: 30, EnvColumns: ev, Ups: wide}))
+		}
+		cases = append(cases, c20SelectCase(c20In{Out: o, Cols: 30, EnvLines: sp("5"), Ups: wide}))
+		cases = append(cases, c20SelectCase(c20In{Out: o, Cols: 30, EnvColumns: sp("20"), EnvLines: sp("3"), Snapshot: true, ViaArgs: true, Ups: wide}))
+	}
 	for i := 0; i < n; i++ {
 		in := c20In{Out: Pick(r, outs), Cols: r.Range(8, 100), Snapshot: r.Chance(1, 4), ViaArgs: r.Bool()}
+		if r.Chance(1, 2) {
+			in.EnvColumns = Pick(r, envVals[1:])
+			if r.Chance(1, 3) {
+				in.EnvColumns = sp(fmt.Sprint(r.Range(1, 40)))
+			}
+		}
+		if r.Chance(1, 4) {
+			in.EnvLines = sp(fmt.Sprint(r.Range(-1, 30)))
+		}
 		k := r.Range(1, 10)
 		lines := c20Lines(r, k, r.Range(0, 6))
 		sgr, multi := r.Chance(1, 3), r.Chance(1, 3)
@@ -921,7 +990,7 @@ func main() {
 		Header: "From Coq Require Import List NArith ZArith String.\nFrom RareV Require Import Corr.C20Case.\nImport ListNotations.\nOpen Scope N_scope. Open Scope string_scope.\n",
 		Rule: "fixed part: every history of at most 2 (quick) / 3 (thorough) updates over lines {0,1,2} and texts {\"\", a, abc, bold ab} through TermWriter at (trim on, width 2) and (trim off, width 3); " +
 			"the trim on every text of length <= 4 (quick) / 5 (thorough) over {a, ESC, '[', '1', 'm'} at widths 1..3 (as VirtualTerm lines); the histories of the package's own tests. " +
-			"writer selection: a child process of the harness whose real standard output is a regular temp file / a pipe / /dev/null / a pty with a chosen window size (when /dev/ptmx is usable) runs helpers.BuildVTerm(snapshot) or helpers.BuildVTermFromArguments (--snapshot, --noout) and a history, and reports the writer it got, termstate.IsPipedOutput, color.Enabled, AutoTrim and the width as the commands see them; the bytes that arrived are compared with the model's (file, pipe: the buffered writer's final lines; pty: the screen of the reference terminal; /dev/null: nothing is observable, only the consistency of the report is required): every combination over one fixed history plus 24 (quick) / 200 (thorough) seeded ones. " +
+			"writer selection: a child process of the harness whose real standard output is a regular temp file / a pipe / /dev/null / a pty with a chosen window size (when /dev/ptmx is usable) runs helpers.BuildVTerm(snapshot) or helpers.BuildVTermFromArguments (--snapshot, --noout) and a history, and reports the writer it got, termstate.IsPipedOutput, color.Enabled, AutoTrim and the width as the commands see them; the bytes that arrived are compared with the model's (file, pipe: the buffered writer's final lines; pty: the screen of the reference terminal; /dev/null: nothing is observable, only the consistency of the report is required): every combination over one fixed history plus 24 (quick) / 200 (thorough) seeded ones; the child's environment is a dimension: COLUMNS unset / empty / 20 / 80 / 0 / -5 / abc and LINES, for file, pipe and pty, over a history whose final lines are wider than every COLUMNS value (expected: a non-terminal receives the final lines untrimmed, a pty is trimmed at the window size the tty driver reports, whatever the environment says), and random COLUMNS / LINES in half of the seeded ones. " +
 			"seeded part: 60% TermWriter (multiterm.New, os.Stdout redirected to a file, the output of every call recorded separately), 10% TermWriter with every text at least as wide as the terminal (finding C20-dec-margin, repaired: a row filled to the last column), 20% BufferedTerm through helpers.BuildVTerm(true), 10% VirtualTerm (NewVirtualTermEx with initial size 0..5, WriteToOutput into a buffer, Get(-1..LineCount), LineCount); " +
 			"widths 1..120 (weighted to 1..3, 4..12, 80) and occasionally 0/-1, AutoTrim on (60%) / off; 0..40 updates over at most 12 lines in five orders (top-to-bottom redraw, bottom-up, one line hammered, growing frontier with jumps back, random); " +
 			"texts with a chosen number of visible runes aimed at the width (0, width-1, width, width+1, 2*width, random), ASCII and multi-byte runes (2, 3 and 4 byte encodings, U+FFFD, U+10FFFF), SGR sequences with and without a trailing reset, and in 10% of the histories texts outside the theorem's domain (TAB, lone ESC, unterminated sequence, other CSI sequences, invalid UTF-8, C1 controls). " +
